@@ -128,8 +128,50 @@ func (ge *GuardEngine) Sinks(fn *ssa.Function, env *Env, conds []Cond, chain []s
 	fi := ge.info(fn)
 	chain = append(append([]string{}, chain...), FuncName(fn))
 	var out []Sink
+	// X = make([]T, len(Y)): from there on len(X) == len(Y) (as long as the store dominates the use)
+	type makeFact struct {
+		blk *ssa.BasicBlock
+		c   Cond
+	}
+	var makeFacts []makeFact
+	for _, mb := range fn.Blocks {
+		for _, in := range mb.Instrs {
+			st, ok := in.(*ssa.Store)
+			if !ok {
+				continue
+			}
+			mk, ok := st.Val.(*ssa.MakeSlice)
+			if !ok {
+				continue
+			}
+			lc, ok := mk.Len.(*ssa.Call)
+			if !ok {
+				continue
+			}
+			if bi, isB := lc.Call.Value.(*ssa.Builtin); !isB || bi.Name() != "len" || len(lc.Call.Args) != 1 {
+				continue
+			}
+			ge.pv.loadCtx = []ssa.Instruction{st}
+			fa, isFA := st.Addr.(*ssa.FieldAddr)
+			if !isFA {
+				ge.pv.loadCtx = nil
+				continue
+			}
+			x, y := ge.pv.addrAtom(fa, env), ge.pv.Atom(lc.Call.Args[0], env)
+			ge.pv.loadCtx = nil
+			if x == "" || y == "" || strings.Contains(x, "zero") {
+				continue
+			}
+			makeFacts = append(makeFacts, makeFact{mb, Cond{L: "len(" + x + ")", Op: "==", R: "len(" + y + ")", Blk: mb}})
+		}
+	}
 	add := func(in ssa.Instruction, b *ssa.BasicBlock, kind, operand, base string, baseLen int64, expr string) {
 		cs := append(append([]Cond{}, conds...), ge.domConds(fi, b, env)...)
+		for _, mf := range makeFacts {
+			if mf.blk != b && mf.blk.Dominates(b) {
+				cs = append(cs, mf.c)
+			}
+		}
 		out = append(out, Sink{Fn: fn, Pos: in.Pos(), Kind: kind, Operand: operand, Base: base, BaseLen: baseLen, Conds: cs, Chain: chain, Expr: expr, Instr: in})
 	}
 	arrLen := func(t types.Type) int64 {
